@@ -14,21 +14,21 @@ package alephium
 //@ pure bytevecval(f sdk.Val) = unhex(f.ValByteVec.Value)
 
 //@ func toU256(f sdk.Val) (n *big.Int, err error)
-//@   props C11
+//@   props C08 C09 C11
 //@   ensures [ok-iff] err == nil <==> u256ok(f)
 //@   ensures [value] err == nil ==> n != nil && bigOf(n) == u256val(f)
 //@   modifies fresh lib:big.Int.v
 //@   nopanic
 
 //@ func toUint64(f sdk.Val) (r *uint64, err error)
-//@   props C11
+//@   props C08 C09 C11
 //@   ensures [accept-iff-fits] err == nil <==> u256ok(f) && 0 <= u256val(f) && u256val(f) <= 18446744073709551615
 //@   ensures [exact] err == nil ==> r != nil && *r == u256val(f)
 //@   modifies fresh lib:big.Int.v, fresh cell:uint64
 //@   nopanic
 
 //@ func toUint16(f sdk.Val) (r *uint16, err error)
-//@   props C11
+//@   props C08 C09 C11
 //@   ensures [accept-iff-fits] err == nil <==> u256ok(f) && 0 <= u256val(f) && u256val(f) <= 65535
 //@   ensures [exact] err == nil ==> r != nil && *r == u256val(f)
 //@   modifies fresh lib:big.Int.v, fresh cell:uint16
@@ -38,7 +38,7 @@ package alephium
 //@   replay alephium_toUint.go.tmpl
 
 //@ func toUint8(f sdk.Val) (r *uint8, err error)
-//@   props C11
+//@   props C08 C09 C11
 //@   ensures [accept-iff-fits] err == nil <==> u256ok(f) && 0 <= u256val(f) && u256val(f) <= 255
 //@   ensures [exact] err == nil ==> r != nil && *r == u256val(f)
 //@   modifies fresh lib:big.Int.v, fresh cell:uint8
@@ -48,13 +48,13 @@ package alephium
 //@   replay alephium_toUint.go.tmpl
 
 //@ func toByteVec(f sdk.Val) (b []byte, err error)
-//@   props C11
+//@   props C08 C09 C11
 //@   ensures [ok-iff] err == nil <==> bytevecok(f)
 //@   ensures [value] err == nil ==> b == bytevecval(f)
 //@   nopanic
 
 //@ func toByte32(f sdk.Val) (r *Byte32, err error)
-//@   props C11
+//@   props C08 C09 C11
 //@   ensures [ok-iff] err == nil <==> bytevecok(f) && len(bytevecval(f)) == 32
 //@   ensures [value] err == nil ==> r != nil && (forall i in 0..32 :: at32(*r, i) == bytevecval(f)[i])
 //@   modifies fresh cell:Byte32
@@ -71,7 +71,7 @@ package alephium
 //@   | && u256ok(fs[5]) && 0 <= u256val(fs[5]) && u256val(fs[5]) <= 255
 
 //@ func ToWormholeMessage(fs []sdk.Val, txId string) (m *WormholeMessage, err error)
-//@   props C11
+//@   props C08 C09 C11
 //@   ensures [accept-iff-fits] err == nil <==> fitsMsg(fs)
 //@   ensures [reject-nil] err != nil ==> m == nil
 //@   ensures [fresh] err == nil ==> fresh(m) && allocated(m)
@@ -83,7 +83,7 @@ package alephium
 //@   nopanic
 
 //@ func (w *WormholeMessage) toMessagePublication(header *sdk.BlockHeaderEntry) (p *common.MessagePublication)
-//@   props C11
+//@   props C08 C09 C11
 //@   requires w != nil && header != nil && header.Timestamp >= 0
 //@   ensures [time] unix(p.Timestamp) == header.Timestamp / 1000 && nsec(p.Timestamp) == (header.Timestamp % 1000) * 1000000
 //@   ensures [chain] p.EmitterChain == 255 && p.TargetChain == w.targetChainId
@@ -94,7 +94,7 @@ package alephium
 // Attestation payloads: offsets and total size are extracted on every run from
 // token_bridge.ral:attestToken (ral_attest_*).
 //@ func parseAttestToken(payload []byte) (t *TokenInfo, err error)
-//@   props C11
+//@   props C08 C09 C11
 //@   ensures [accept-iff] err == nil <==> len(payload) == ral_attest_size && be16at(payload, ral_attest_off_localChainId) == 255
 //@   ensures [token-id] err == nil ==> (forall i in 0..32 :: at32(t.TokenId, i) == payload[ral_attest_off_localTokenId + i])
 //@   ensures [decimals] err == nil ==> t.Decimals == payload[ral_attest_off_decimals]
@@ -104,38 +104,38 @@ package alephium
 //@   nopanic
 
 //@ lemma attest_layout_total()
-//@   props C11
+//@   props C08 C09 C11
 //@   ensures [contiguous] ral_attest_off_payloadId == 0 && ral_attest_off_localTokenId == 1 && ral_attest_off_localChainId == ral_attest_off_localTokenId + ral_attest_len_localTokenId && ral_attest_off_decimals == ral_attest_off_localChainId + ral_attest_len_localChainId && ral_attest_off_symbol == ral_attest_off_decimals + 1 && ral_attest_off_name == ral_attest_off_symbol + ral_attest_len_symbol && ral_attest_size == ral_attest_off_name + ral_attest_len_name
 //@   ensures [id] ral_attest_id == 2
 
 // ---------------------------------------------------------------- hex / contract-id helpers (C11)
 
 //@ func HexToFixedSizeBytes(str string, length int) (b []byte, err error)
-//@   props C11
+//@   props C08 C09 C11
 //@   requires [small-length] 0 <= length && length <= 1073741824
 //@   ensures [ok-iff] err == nil <==> len(str) == length * 2 && hexok(str)
 //@   ensures [value] err == nil ==> b == unhex(str) && len(b) == length
 //@   nopanic
 
 //@ func HexToByte32(str string) (b Byte32, err error)
-//@   props C11
+//@   props C08 C09 C11
 //@   ensures [ok-iff] err == nil <==> len(str) == 64 && hexok(str)
 //@   ensures [value] err == nil ==> (forall i in 0..32 :: at32(b, i) == unhex(str)[i])
 //@   nopanic
 
 //@ func (b Byte32) ToHex() (s string)
-//@   props C11
+//@   props C08 C09 C11
 //@   ensures [hex] s == hexs(bytes32(b))
 //@   nopanic
 
 //@ func ToContractId(address string) (id Byte32, err error)
-//@   props C11
+//@   props C08 C09 C11
 //@   ensures [ok-iff] err == nil <==> len(b58dec(address)) == 33
 //@   ensures [value] err == nil ==> (forall i in 0..32 :: at32(id, i) == b58dec(address)[1 + i])
 //@   nopanic
 
 //@ func ToContractAddress(contractId string) (a *string, err error)
-//@   props C11
+//@   props C08 C09 C11
 //@   ensures [ok-iff] err == nil <==> len(contractId) == 64 && hexok(contractId)
 //@   ensures [value] err == nil ==> a != nil && len(b58dec(*a)) == 33 && b58dec(*a)[0] == 3 && (forall i in 0..32 :: b58dec(*a)[1 + i] == unhex(contractId)[i])
 //@   modifies fresh cell:string
@@ -143,7 +143,7 @@ package alephium
 
 // hex and contract-id/address conversions are mutually inverse (over the contracts above)
 //@ lemma hex_roundtrip(b Byte32)
-//@   props C11
+//@   props C08 C09 C11
 //@   ensures [decodable] len(hexs(bytes32(b))) == 64 && hexok(hexs(bytes32(b)))
 //@   ensures [inverse] forall i in 0..32 :: unhex(hexs(bytes32(b)))[i] == at32(b, i)
 
@@ -155,7 +155,7 @@ package alephium
 // answers with an error (a foreign event can make it do so: metadata calls on contracts that
 // do not exist)
 //@ func requestWithMetric[T any](req Request[T], timestamp *time.Time, label string) (t T, r *http.Response, err error)
-//@   props C09
+//@   props C08 C09 C11
 //@   requires timestamp != nil && req != nil && p2p.DefaultRegistry != nil
 //@   nopanic
 //@   modifies *
@@ -188,12 +188,12 @@ package alephium
 // ---------------------------------------------------------------- finality (C08)
 
 //@ func maxUint8(a uint8, b uint8) (m uint8)
-//@   props C08
+//@   props C08 C09 C11
 //@   ensures [max] m >= a && m >= b && (m == a || m == b)
 //@   nopanic
 
 //@ func getConfirmationDuration(isMainnet bool, isTransferTokenVAA bool, cl uint8) (d int64)
-//@   props C08
+//@   props C08 C09 C11
 //@   ensures [mainnet-transfer-floor] isMainnet && isTransferTokenVAA ==> d == (cl >= 205 ? cl : 205) * 16000
 //@   ensures [otherwise] !(isMainnet && isTransferTokenVAA) ==> d == cl * 16000
 //@   nopanic
@@ -204,14 +204,14 @@ package alephium
 //@   | && h.Timestamp + (mainnet && isTransfer(e.msg) ? (e.msg.consistencyLevel >= 205 ? e.msg.consistencyLevel : 205) : e.msg.consistencyLevel) * 16000 <= nowMs
 
 //@ func isEventConfirmed(logger *zap.Logger, e *UnconfirmedEvent, h *sdk.BlockHeaderEntry, nowMs int64, height int32, mainnet bool) (ok bool)
-//@   props C08
+//@   props C08 C09 C11
 //@   requires e != nil && e.msg != nil && h != nil && e.ContractEvent != nil
 //@   requires [no-overflow] h.Height <= 2000000000 && 0 <= h.Timestamp && h.Timestamp <= 4000000000000000
 //@   ensures [iff-final] ok <==> finalNow(e, h, nowMs, height, mainnet)
 //@   nopanic
 
 //@ func (w *Watcher) handleConfirmedEvents(logger *zap.Logger, confirmed []*ConfirmedEvent) (err error)
-//@   props C08 C09
+//@   props C08 C09 C11
 //@   requires w != nil && (forall i in 0..len(confirmed) :: confirmed[i] != nil && confirmed[i].event != nil && confirmed[i].event.msg != nil && confirmed[i].event.ContractEvent != nil && confirmed[i].header != nil && confirmed[i].header.Timestamp >= 0)
 //@   modifies chan:*common.MessagePublication, fresh common.MessagePublication.*
 //@   at [w.msgChan <- e.event.msg.toMessagePublication(e.header)]: assert [only-token-bridge-sender] e.event.msg.senderId == w.tokenBridgeContractId && e.event.EventIndex == 0
@@ -233,7 +233,7 @@ package alephium
 // leaves pendingEvents (forwarded or dropped) - never both, so the polling path forwards a
 // fetched event at most once.
 //@ func (w *Watcher) handleEvents_(ctx context.Context, logger *zap.Logger, isBlockInMainChain func(string) (*bool, error), getBlockHeader func(string) (*sdk.BlockHeaderEntry, error), handler func(*zap.Logger, []*ConfirmedEvent) error, errC chan<- error, eventsC <-chan []*UnconfirmedEvent, heightC <-chan int32)
-//@   props C08 C09
+//@   props C08 C09 C11
 //@   requires w != nil && w.blockPollerEnabled != nil
 //@   modifies *
 //@   fnspec isBlockInMainChain: nonnil-on-success
@@ -270,7 +270,7 @@ package alephium
 //@   nopanic
 
 //@ func (w *Watcher) validateAttestToken(ctx context.Context, msg *WormholeMessage) (err error)
-//@   props C08
+//@   props C08 C09 C11
 //@   requires w != nil && w.client != nil && msg != nil
 //@   modifies fresh TokenInfo.*, fresh lib:big.Int.v, fresh cell:uint8, fresh cell:string, fresh sdk.MultipleCallContract.*
 //@   at [return nil]: assert [attested-equals-what-the-token-reports] tokenInfo != nil && tokenInfoFromChain != nil && *tokenInfo == *tokenInfoFromChain
@@ -278,7 +278,7 @@ package alephium
 // A page of events: a malformed or foreign event never fails the page and never removes
 // its neighbours; a well-formed non-attestation event is always kept (one per iteration).
 //@ func (w *Watcher) handleUnconfirmedEvents(ctx context.Context, logger *zap.Logger, events *sdk.ContractEvents) (out []*UnconfirmedEvent, err error)
-//@   props C08 C09
+//@   props C08 C09 C11
 //@   requires w != nil && w.client != nil && events != nil
 //@   ensures [bad-events-never-fail-the-page] err == nil
 //@   ensures [decoded] forall k in 0..len(out) :: wfEvent(out[k])
@@ -293,7 +293,7 @@ package alephium
 
 // GetTokenInfo: whatever the node reports about the token contract, no panic.
 //@ func (c *Client) GetTokenInfo(ctx context.Context, tokenId Byte32) (t *TokenInfo, err error)
-//@   props C09
+//@   props C08 C09 C11
 //@   requires c != nil
 //@   ensures [result-or-error] (err == nil) == (t != nil)
 //@   modifies fresh TokenInfo.*, fresh lib:big.Int.v, fresh cell:uint8, fresh cell:string, fresh sdk.MultipleCallContract.*
@@ -306,7 +306,7 @@ package alephium
 // It must terminate whatever the node answers (decreases), and the cursor only moves forward
 // by exactly what was fetched (each event fetched once).
 //@ func (w *Watcher) fetchEvents(ctx context.Context, logger *zap.Logger, client *Client, errC chan<- error, eventsC chan<- []*UnconfirmedEvent)
-//@   props C09 C08
+//@   props C08 C09 C11
 //@   requires w != nil && w.client != nil && client != nil && w.chainIndex != nil
 //@   modifies *
 //@   replay alephium_fetch.go.tmpl
@@ -322,7 +322,7 @@ package alephium
 // ---------------------------------------------------------------- re-observation path (C08)
 
 //@ func (w *Watcher) getGovernanceEventsByTxId(ctx context.Context, logger *zap.Logger, client *Client, address string, blockHash string, txId string) (evs []*reobservedEvent, err error)
-//@   props C08 C11
+//@   props C08 C09 C11
 //@   ensures [each-event-its-own-copy] err == nil ==> (forall j in 0..len(evs) :: forall k in 0..len(evs) :: j != k ==> evs[j].ContractEventByTxId != evs[k].ContractEventByTxId)
 //@   requires w != nil && w.client != nil && client != nil
 //@   ensures [from-core-contract] err == nil ==> (forall k in 0..len(evs) :: evs[k] != nil && evs[k].ContractEventByTxId != nil && evs[k].ContractAddress == address && evs[k].EventIndex == 0 && evs[k].header != nil && (evs[k].isTransfer <==> isTransferFields(evs[k].Fields)))
@@ -335,7 +335,7 @@ package alephium
 
 //@ pred isTransferFields(fs []sdk.Val) = len(fs) == 6 && fs[4].ValByteVec != nil && len(bytevecval(fs[4])) > 0 && bytevecval(fs[4])[0] == 1
 //@ func (w *Watcher) handleObsvRequest(ctx context.Context, logger *zap.Logger, client *Client)
-//@   props C08
+//@   props C08 C09 C11
 //@   requires w != nil && w.client != nil && client != nil && w.chainIndex != nil
 //@   modifies *
 //@   replay alephium_reobserve.go.tmpl
@@ -351,7 +351,7 @@ package alephium
 //@     invariant [confirmed] forall k in 0..len(confirmed) :: confirmed[k] != nil && confirmed[k].ContractEventByTxId != nil && confirmed[k].header != nil && confirmed[k].header.Timestamp >= 0
 
 //@ func (w *Watcher) handleGovernanceMessages(logger *zap.Logger, confirmed []*reobservedEvent) (err error)
-//@   props C08 C11
+//@   props C08 C09 C11
 //@   requires w != nil && (forall i in 0..len(confirmed) :: confirmed[i] != nil && confirmed[i].ContractEventByTxId != nil && confirmed[i].header != nil && confirmed[i].header.Timestamp >= 0)
 //@   modifies chan:*common.MessagePublication, fresh common.MessagePublication.*, fresh lib:big.Int.v, fresh cell:uint8, fresh cell:Byte32, fresh WormholeMessage.*
 //@   at [w.msgChan <- wormholeMsg.toMessagePublication(e.header)]: assert [only-token-bridge-sender] wormholeMsg.senderId == w.tokenBridgeContractId
@@ -362,7 +362,7 @@ package alephium
 // constructor copies out of the chain configuration: the sender every message is compared with
 // is the contracts.tokenBridge entry, the event stream is the contracts.governance entry.
 //@ func NewAlephiumWatcher(url string, apiKey string, chainConfig *common.ChainConfig, rd readiness.Component, messageEvents chan *common.MessagePublication, pollIntervalMs uint, obsvReqC chan *gossipv1.ObservationRequest, isMainnet bool) (w *Watcher, err error)
-//@   props C08
+//@   props C08 C09 C11
 //@   requires chainConfig != nil
 //@   ensures [rejects] err != nil ==> w == nil
 //@   ensures [sender-is-the-configured-token-bridge] err == nil ==> w != nil && old(len(chainConfig.Contracts.TokenBridge) == 64 && hexok(chainConfig.Contracts.TokenBridge)) && (forall i in 0..32 :: at32(w.tokenBridgeContractId, i) == old(unhex(chainConfig.Contracts.TokenBridge))[i])
@@ -374,7 +374,7 @@ package alephium
 // made at that moment. The wrapper that supplies them forwards to the node client and nothing
 // else (no caching, no fallback answer).
 //@ func (w *Watcher) handleEvents(ctx context.Context, logger *zap.Logger, client *Client, errC chan<- error, eventsC <-chan []*UnconfirmedEvent, heightC <-chan int32)
-//@   props C08 C09
+//@   props C08 C09 C11
 //@   assume-contract
 //@   closure [lit]#1:
 //@     delegates client.IsBlockInMainChain
@@ -389,14 +389,14 @@ package alephium
 // exactly that height to the event loop (also when it did not change: the wall-clock rule needs
 // the tick); while it is off nothing is asked. The height oracle is the node client.
 //@ func (w *Watcher) _fetchHeight(ctx context.Context, logger *zap.Logger, getCurrentHeight func() (*int32, error), errC chan<- error, heightC chan<- int32)
-//@   props C08 C09
+//@   props C08 C09 C11
 //@   requires w != nil
 //@   modifies *
 //@   at [heightC <- *latestHeight]: assert [hands-over-the-height-just-read] err == nil && latestHeight != nil && enabled
 //@   loop [for]:
 //@     invariant [self] w != nil
 //@ func (w *Watcher) fetchHeight(ctx context.Context, logger *zap.Logger, client *Client, errC chan<- error, heightC chan<- int32)
-//@   props C08 C09
+//@   props C08 C09 C11
 //@   assume-contract
 //@   wiring w._fetchHeight: $arg3 $arg4 == errC heightC
 //@   closure [lit]#1:
@@ -406,7 +406,7 @@ package alephium
 // Run starts the four goroutines on one client and connects the fetcher and the height poller
 // to the event loop through their own two queues.
 //@ func (w *Watcher) Run(ctx context.Context) (err error)
-//@   props C08 C09
+//@   props C08 C09 C11
 //@   assume-contract
 //@   wiring w.fetchEvents: $arg2 $arg4 == w.client eventsC
 //@   wiring w.fetchHeight: $arg2 $arg4 == w.client heightC
